@@ -84,7 +84,7 @@ theorem loopTI_eq (cfg : Cfg) (P : Prog) (env : Env) (fuel self : Nat) (inSub : 
         else
           (go cfg P env fuel self inSub (.exec (afterTry kind f l) c)).pre
             (lg ++ stopsOf cfg (otherSubs body hs (pick cfg env hs)))
-      | .viol v lg => .viol v lg
+      | .viol v lg => .viol v (lg ++ closeStops cfg (otherSubs body hs (pick cfg env hs)))
       | .diverge => .diverge := by
   rw [go]; rfl
 
